@@ -60,9 +60,7 @@ func checkPrime[T comparable, PT primeAPI[T]](t *rapid.T, f *kit.F, size int, or
 	case "Sqr", "Inv":
 		alias = kit.DrawAlias2(t)
 	case "IsEqual":
-		if rapid.Bool().Draw(t, "same") {
-			yv, yc = xv, xc
-		}
+		yv, yc = f.DrawSecond(t, xv, xc, "y2")
 	}
 	if alias == kit.AliasXY || alias == kit.AliasAll {
 		yv, yc = xv, xc
@@ -640,4 +638,71 @@ func indexDot(s string) int {
 		}
 	}
 	return len(s)
+}
+
+// sweepRing runs the predicate sweep on one coordinate at a time of a tower type.
+func sweepRing[T comparable](t *testing.T, r *ring[T]) {
+	for k, idx := range r.coords {
+		idx := idx
+		ps := &kit.Preds[T]{F: fpF, Type: r.name, Backend: fmt.Sprintf("go/coord%d", k),
+			From: func(v *big.Int) T {
+				e := fptower.Zero()
+				e[idx/2][idx%2] = v
+				return r.from(e)
+			}}
+		if r.isZero != nil {
+			ps.IsZero = func(x *T) bool { return r.isZero(x) == 1 }
+		}
+		if r.isEqual != nil {
+			ps.IsEqual = func(x, y *T) bool { return r.isEqual(x, y) == 1 }
+		}
+		kit.SweepPredicates(t, ps)
+	}
+}
+
+// TestC12PredicateSweep: deterministic enumeration of every single-bit /
+// one-limb difference of the internal (Montgomery) representation for the
+// zero, one and equality tests of ff.
+func TestC12PredicateSweep(t *testing.T) {
+	defer vlib.Done()
+	kit.SweepPredicates(t, &kit.Preds[ff.Fp]{F: fpF, Type: "bls.Fp", Backend: "go", From: fpFrom,
+		IsZero:  func(x *ff.Fp) bool { return x.IsZero() == 1 },
+		IsEqual: func(x, y *ff.Fp) bool { return x.IsEqual(y) == 1 }})
+	kit.SweepPredicates(t, &kit.Preds[ff.Scalar]{F: scF, Type: "bls.Scalar", Backend: "go",
+		From: func(v *big.Int) (z ff.Scalar) {
+			if err := z.UnmarshalBinary(vlib.BE(v, ff.ScalarSize)); err != nil {
+				panic(err)
+			}
+			return
+		},
+		IsZero:  func(x *ff.Scalar) bool { return x.IsZero() == 1 },
+		IsEqual: func(x, y *ff.Scalar) bool { return x.IsEqual(y) == 1 }})
+	sweepRing(t, ringFp2)
+	sweepRing(t, ringFp4)
+	sweepRing(t, ringFp6)
+	sweepRing(t, ringFp12)
+	sweepRing(t, ringFp12Cubic)
+	// identity tests of the groups inside Fp12: 1 with one coordinate changed by one internal pattern
+	var n int64
+	for _, idx := range ringFp12.coords {
+		for _, d := range fpF.InternalPatterns() {
+			e := fptower.One()
+			a := fpF.ToInternal(e[idx/2][idx%2])
+			b := new(big.Int).Xor(a, d)
+			if b.Cmp(fptower.P) >= 0 {
+				continue
+			}
+			e[idx/2][idx%2] = fpF.FromInternal(b)
+			x := ringFp12.from(e)
+			c6, ur := ff.Cyclo6(x), ff.URoot(x)
+			n += 2
+			if c6.IsIdentity() != 0 || ur.IsIdentity() != 0 {
+				if !vlib.ReportDirect(t, "C12/bls.Cyclo6/IsIdentity/go/wrong-predicate-sweep", fmt.Sprintf("1 with coordinate %d changed by internal pattern 0x%x is reported as the identity", idx, d), map[string]interface{}{"coord": idx, "pattern": d.String()}) {
+					return
+				}
+			}
+		}
+	}
+	vlib.EvalN("bls.Cyclo6", n)
+	vlib.ClassN("bls.Cyclo6", "op=predicate-sweep", n)
 }
